@@ -188,7 +188,11 @@ class LogFormatter(logging.Formatter):
             # byte strings wherever possible).
             record.message = _safe_unicode(message)
         except Exception as e:
-            record.message = f"Bad message ({e!r}): {record.__dict__!r}"
+            try:
+                record.message = f"Bad message ({e!r}): {record.__dict__!r}"
+            except Exception:
+                # The repr of the exception or of the arguments may raise too.
+                record.message = "Bad message (%s)" % type(e).__name__
 
         record.asctime = self.formatTime(record, cast(str, self.datefmt))
 
